@@ -356,3 +356,25 @@ CHECKS["C12"] = dict(
                  "harness data shared between goroutines is synchronised; a report without any go-netty frame is treated as a harness bug (inconclusive)",
                  "operations the property excludes (pipeline mutation while events flow, attachment access) are never generated"],
 )
+
+CHECKS["C20"] = dict(
+    test="TestC20", level="exploration", death_is_violation=True,
+    quick=dict(shards=4, checks=2, timeout=300),
+    thorough=dict(shards=8, checks=40, timeout=3000),
+    replay_repeat=1,
+    rule="generated timelines executed in real time (the handlers use time.Now/time.AfterFunc directly and refuse idle times below 1 s; "
+         "replacing the clock would not be an add-only hook): one case = 200 independent timelines run concurrently, each on its own "
+         "channel with the read-idle and/or write-idle handler (idle time 1 s), 0-6 stimuli (inbound messages / outbound writes, bursts) "
+         "at generated offsets up to 4.4 s of which a third sit 20-80 ms before or after an expected expiry, optionally an inactive at a "
+         "generated offset or within +-30 ms of an expected expiry, an event handler that panics on, or closes the channel from inside, "
+         "the k-th idle event. Oracle on monotonic timestamps taken by the harness: no idle event earlier than idle time after any stimulus "
+         "of its direction (or activation) that completed >= 400 ms before the event was observed; no silence longer than 2*idle + 400 ms "
+         "on an active channel without an event; after the inactive event passed at most one event per handler and none later than "
+         "400 ms; a panicking event handler reaches the exception handlers and later periods are still timed; the process survives. A hit "
+         "is reported only if it reproduces on an immediate second run of that timeline. Non-trivial (per case) = some timeline had a "
+         "stimulus within 100 ms of an expiry, an inactive within 30 ms of one, a panicking or closing event handler.",
+    required=["handlers:read", "handlers:write", "handlers:both", "idle-events-observed", "inactive", "inactive-near-expiry",
+              "stimulus-near-expiry", "event-handler-panicked", "closed-from-event-handler"],
+    assumptions=["real time with a slack of 400 ms between the handler's decision and the harness timestamp (measured lateness in the design probe: <= 2.2 ms for 600 concurrent timelines); a false alarm needs a 400 ms stall of one goroutine twice in a row",
+                 "exception handlers do not panic"],
+)
